@@ -23,6 +23,11 @@ func Run(t *testing.T, prop string, seed uint64, tier string, replay *hcommon.Re
 		if seed%2 == 0 {
 			return runConc(t, prop, seed, tier, replay)
 		}
+	case "C21":
+		// a third of the runs: concurrent callers, then a clean stop and reopen
+		if seed%3 == 0 {
+			return runConc(t, prop, seed, tier, replay)
+		}
 	case "C20", "C22":
 		return runAOFCrash(t, prop, seed, tier, replay)
 	case "C23":
